@@ -2,7 +2,7 @@
     conclusions say something (a bond really changes, a charge really moves, the additive branch is really taken, no
     ITS is really produced).  Intermediate values are top-level Definitions (no destructuring lets in statements). *)
 From Coq Require Import List NArith ZArith Bool Lia.
-From SK Require Import lib.Tok lib.LGraph model.C03_Model proof.C03_Proof proof.C03_Glue proof.C03_Backward proof.C03_ExplicitH proof.C03_ExplicitShape proof.C03_ExplicitTotal proof.C03_Expand proof.C03_Default proof.C03_Iso proof.C03_Skeleton proof.C03_StripCounts proof.C03_Wiring proof.C03_WiringCount proof.C03_PairIds proof.C03_StripExact proof.C03_StripCor.
+From SK Require Import lib.Tok lib.LGraph model.C03_Model proof.C03_Proof proof.C03_Glue proof.C03_Backward proof.C03_ExplicitH proof.C03_ExplicitShape proof.C03_ExplicitTotal proof.C03_Expand proof.C03_Default proof.C03_Iso proof.C03_Skeleton proof.C03_StripCounts proof.C03_Wiring proof.C03_WiringCount proof.C03_PairIds proof.C03_StripExact proof.C03_StripCor proof.C03_PairIdsComplete.
 Import ListNotations.
 Local Open Scope Z_scope.
 
@@ -265,3 +265,12 @@ Example ex_synrule_default_pointwise :
   sum_cnt (gedges (side0 iH eH ex_tpl_x)) [2%N] 1%N = 0 /\ sum_cnt (gedges (side0 iH eH ex_tpl_x)) [2%N] 3%N = 1 /\
   option_map (fun a => (a_hc (iG a), a_hc (iH a))) (label ex_rc_s 1%N) = Some (1, 0) /\ has_XH ex_l_s = false /\ h_to_implicit ex_l_s = ex_l_s.
 Proof. vm_compute. repeat split; reflexivity. Qed.
+
+Example ex_pair_ids_complete : exists p, forall x, In x (nbrs ex_tpl_x 2%N) -> is_H_i ex_tpl_x x = false -> has_node ex_tpl_x x = true ->
+                                         exists A, label ex_rc_s x = Some A /\ In p (hp_of A).
+Proof.
+  destruct ex_synrule_default_exact as (_ & H1 & H2 & H3 & _).
+  apply (synrule_default_pairs_complete ex_tpl_x ex_rc_s (match synrule ex_tpl_x true with Some t => snd (fst t) | None => LG [] [] end)
+           (match synrule ex_tpl_x true with Some t => snd t | None => LG [] [] end)); auto.
+  intros k a I. simpl in I. destruct I as [I|[I|[I|[]]]]; inversion I; subst; reflexivity.
+Qed.
